@@ -3,6 +3,7 @@ package rlwe
 import (
 	"fmt"
 	"math/big"
+	"math/bits"
 
 	"github.com/tuneinsight/lattigo/v6/ring"
 	"github.com/tuneinsight/lattigo/v6/utils"
@@ -98,10 +99,14 @@ func (eval RingPackingEvaluator) extract(ct *Ciphertext, idx map[int]bool, naive
 
 	keys := utils.GetSortedKeys(idx)
 
-	_, logGap, err := getMinimumGap(keys)
-
-	if err != nil {
-		return nil, fmt.Errorf("getMinimumGap: %w", err)
+	// Largest power of two dividing all the indexes: only the coefficients
+	// which are a multiple of it need to be expanded.
+	logGap := logNMax
+	for _, i := range keys {
+		if i != 0 {
+			/* #nosec G115 -- i is a coefficient index */
+			logGap = utils.Min(logGap, bits.TrailingZeros64(uint64(i)))
+		}
 	}
 
 	// First recursively splits the ciphertexts into smaller ciphertexts of half the ring
